@@ -151,6 +151,7 @@ def case_compose_ns(log, order, kind, shape="complex"):
     m = EvoMethods[COMPOSING[kind]]
     log.encode(ns.dispatcher)
     rp = (MOD, "replay_compose", {"order": order, "kind": kind, "sector": "ns"})
+    log.register_replay("fallback:replay_compose", rp, _sampler)
 
     def run():
         a0, a1 = SR.var("a0"), SR.var("a1")
@@ -190,6 +191,7 @@ def case_compose_lo_singlet(log):
 
     log.encode(sg.dispatcher, sg.lo_exact, ad.exp_matrix_2D)
     rp = (MOD, "replay_compose", {"order": 1, "kind": "exact", "sector": "singlet"})
+    log.register_replay("fallback:replay_compose", rp, _sampler)
 
     def run():
         a0, a1 = SR.var("a0"), SR.var("a1")
@@ -228,6 +230,7 @@ def case_compose_iterate(log, order):
     ns, sg, ei, as4, ad = kernel_modules()
     log.encode(sg.eko_iterate)
     rp = (MOD, "replay_compose_iterate", {"order": order})
+    log.register_replay("fallback:replay_compose_iterate", rp, _sampler)
 
     def run():
         jetmod.set_cap(5)
